@@ -131,7 +131,8 @@ func ruleReaderLoops(prog *Program, rep *Report) {
 	rep.Rules = append(rep.Rules,
 		"L-eof: in every reader entry the 'last' argument of the dispatch call is a flag that is set to true only under a test of the read error against io.EOF",
 		"L-bytes: the buffer handed to the dispatch function is the read buffer resliced to exactly the count returned by Read (buf = buf[:cnt] directly after every Read, buf[:cap(buf)] before re-reading), optionally minus the BOM skip",
-		"L-stop: an error returned by the dispatch function leaves the loop (return) before the next read")
+		"L-stop: an error returned by the dispatch function leaves the loop (return) before the next read",
+		"L-final: no return statement sits in code of the entry that runs only when Read reported io.EOF (after `if !errors.Is(err, io.EOF) { return }`): the entry goes on to call the dispatch function with the end-of-input flag")
 	for _, spec := range readerEntries {
 		rf := analyseReader(prog, spec, rep)
 		if rf == nil {
@@ -202,6 +203,81 @@ func ruleReaderLoops(prog *Program, rep *Report) {
 			rep.Discharge("L-eof", key, pos, "flag set true only under an io.EOF test")
 		} else {
 			rep.Violate(Finding{Rule: "L-eof", Key: key + ":eof-flag", Pos: pos, Msg: "the end-of-input flag passed to the dispatch function is not set exclusively under a test of the read error against io.EOF"})
+		}
+		// L-final: code that runs only when the read error is io.EOF does not return: the loop goes on to the dispatch
+		// call with the flag set, which flushes a pending top-level number and reports unfinished input
+		{
+			negated := func(cond ast.Expr) bool {
+				switch c := ast.Unparen(cond).(type) {
+				case *ast.UnaryExpr:
+					return c.Op == token.NOT
+				case *ast.BinaryExpr:
+					return c.Op == token.NEQ
+				}
+				return false
+			}
+			var early []token.Pos
+			var scan func(n ast.Node, inEOF bool)
+			scan = func(n ast.Node, inEOF bool) {
+				switch x := n.(type) {
+				case nil:
+					return
+				case *ast.BlockStmt:
+					u := inEOF
+					for _, st := range x.List {
+						scan(st, u)
+						if is, ok := st.(*ast.IfStmt); ok && mentionsEOF(info, is.Cond) && negated(is.Cond) && endsInReturn(is.Body) {
+							u = true
+						}
+					}
+				case *ast.IfStmt:
+					if mentionsEOF(info, x.Cond) {
+						if negated(x.Cond) {
+							scan(x.Body, false)
+							scan(x.Else, true)
+						} else {
+							scan(x.Body, true)
+							scan(x.Else, false)
+						}
+						return
+					}
+					// `if err != nil { ... }` around the EOF test: look inside, same state
+					scan(x.Body, inEOF)
+					scan(x.Else, inEOF)
+				case *ast.ForStmt:
+					scan(x.Body, false) // a new iteration starts with a new read
+				case *ast.RangeStmt:
+					scan(x.Body, false)
+				case *ast.ReturnStmt:
+					if inEOF {
+						early = append(early, x.Pos())
+					}
+				case *ast.LabeledStmt:
+					scan(x.Stmt, inEOF)
+				}
+			}
+			// only the read loop and the first read are of interest: scan the statements of the body up to and
+			// including the loop that contains a dispatch call (what follows the loop is the normal end of the entry)
+			var upto []ast.Stmt
+			for _, st := range rf.fd.Body.List {
+				upto = append(upto, st)
+				if _, isFor := st.(*ast.ForStmt); isFor {
+					break
+				}
+			}
+			inEOF := false
+			for _, st := range upto {
+				scan(st, inEOF)
+				if is, ok := st.(*ast.IfStmt); ok {
+					// `if err != nil { if !errors.Is(err, io.EOF) { return }; eof = true }` leaves inEOF unknown afterwards: not EOF-only
+					_ = is
+				}
+			}
+			if len(early) == 0 {
+				rep.Discharge("L-final", key, pos, "no return in code that runs only for io.EOF before the final dispatch call")
+			} else {
+				rep.Violate(Finding{Rule: "L-final", Key: key + ":return-on-eof", Pos: prog.Pos(early[0]), Msg: "the reader entry returns in code that runs only when Read reported io.EOF, before the dispatch function was called with the end-of-input flag: a number that ends the input is never delivered and unfinished input is not reported"})
+			}
 		}
 		// L-bytes: every Read(buf) is followed by buf = buf[:cnt]
 		okBytes := true
